@@ -53,8 +53,8 @@ def main(argv):
                 continue
             res = {"property": meta["property"]}
             if os.path.exists(os.path.join(d, "demo.py")):
-                rc_m, _ = sh(f"timeout 600 {PY} {os.path.join(d, 'demo.py')}", cwd=wt)
-                rc_c, _ = sh(f"timeout 600 {PY} {os.path.join(d, 'demo.py')}", cwd="/repo")
+                rc_m, _ = sh(f"PYTHONPATH={wt} timeout 900 {PY} {os.path.join(d, 'demo.py')}", cwd=wt)
+                rc_c, _ = sh(f"PYTHONPATH=/repo timeout 900 {PY} {os.path.join(d, 'demo.py')}", cwd="/repo")
                 res["demo_on_mutant_rc"] = rc_m
                 res["demo_on_clean_rc"] = rc_c
             env = dict(os.environ)
